@@ -81,6 +81,9 @@ func cmdCheck(args []string) int {
 	if b, err := os.ReadFile(filepath.Join(*verif, "baseline", "locals.json")); err == nil {
 		json.Unmarshal(b, &eng.baseLocals)
 	}
+	if b, err := os.ReadFile(filepath.Join(*verif, "baseline", "gostmts.json")); err == nil {
+		json.Unmarshal(b, &eng.baseGo)
+	}
 	if b, err := os.ReadFile(filepath.Join(*verif, "baseline", "functions.json")); err == nil {
 		var names []string
 		if json.Unmarshal(b, &names) == nil {
@@ -284,7 +287,7 @@ func cmdCheck(args []string) int {
 		sort.Strings(names)
 		var dead []string
 		for _, o := range obls {
-			if o.Verdict == "cover-failed" && (strings.Contains(o.Name, ".cover.ret") || strings.Contains(o.Name, ".cover.site.")) {
+			if o.Verdict == "cover-failed" && (strings.Contains(o.Name, ".cover.ret") || strings.Contains(o.Name, ".cover.site.") || strings.Contains(o.Name, ".cover.ante")) {
 				dead = append(dead, o.Name)
 			}
 		}
@@ -301,6 +304,21 @@ func cmdCheck(args []string) int {
 		}
 		if b, err := json.MarshalIndent(locals, "", " "); err == nil {
 			os.WriteFile(filepath.Join(*verif, "baseline", "locals.json"), b, 0o644)
+		}
+		{
+			// go statements per verified unit (merged into the file: other properties' units stay)
+			gos := map[string]int{}
+			if b, err := os.ReadFile(filepath.Join(*verif, "baseline", "gostmts.json")); err == nil {
+				json.Unmarshal(b, &gos)
+			}
+			for _, u := range units {
+				if u.fn != nil {
+					gos[u.fn.String()] = u.goCount
+				}
+			}
+			if b, err := json.MarshalIndent(gos, "", " "); err == nil {
+				os.WriteFile(filepath.Join(*verif, "baseline", "gostmts.json"), b, 0o644)
+			}
 		}
 		if b, err := json.MarshalIndent(eng.repoFuncs(), "", " "); err == nil {
 			os.WriteFile(filepath.Join(*verif, "baseline", "functions.json"), b, 0o644)
